@@ -3,6 +3,7 @@ import RsyncModel.Driver.MuxOps
 import RsyncModel.Driver.AclOps
 import RsyncModel.Driver.DeltaOps
 import RsyncModel.Driver.GenOps
+import RsyncModel.Driver.DeleteOps
 open Driver
 
 def dispatch (line : String) : String :=
@@ -13,6 +14,7 @@ def dispatch (line : String) : String :=
   | op :: _ =>
     if op.startsWith "mux." then muxOp fs
     else if op == "acl" then aclOp fs
+    else if op == "delete" || op == "find" || op == "utf8" then deleteOp fs
     else if op == "gen" || op == "genrecv" then genOp fs
     else if ["sum1", "md4", "sumsizes", "gensums", "search", "recvdata"].contains op then deltaOp fs
     else "bad-op"
